@@ -136,9 +136,13 @@ def leaf_type_norm(ty):
 def _with_delegates(F, body, name, trait):
     """an impl that forwards to another impl of the same trait in this crate (`(self as &dyn Key).hash(h)`) is analysed
     with that impl written in place"""
+    def family(ty):
+        # the key types themselves (owned / borrowed / dyn views), not the leaves they are made of
+        t = leaf_type_norm(ty or '')
+        return t.startswith('dyn ') or bool(re.match(r"^(utils::private::\w*Key|hot_reloading::(records|dependencies)::\w*(Dependency|Key))\b", t))
     dels = sorted({c.callee.best for c in body.calls() if c.callee and c.callee.name == name and c.callee.trait == trait
-                   and c.callee.best != body.path and F.body(c.callee.best) is not None})
-    return F.view(body.path, dels) if dels else body
+                   and c.callee.best != body.path and F.body(c.callee.best) is not None and family(c.callee.self_ty)})
+    return F.view(body.path, dels, through_traits=True) if dels else body
 
 
 def hash_sequence(F, body, depth=0):
@@ -163,11 +167,17 @@ def hash_sequence(F, body, depth=0):
                 cs = [x for x in body.calls() if x.bb == bb]
                 if cs and cs[0].callee:
                     src = cs[0].callee.name + '()'
-        out.append((src, leaf_type_norm(cal.self_ty or '?')))
+        lt = leaf_type_norm(cal.self_ty or '?')
+        if src == 'self' and depth < 2 and (lt.startswith('dyn ') or re.match(r'^utils::private::\w*Key\b', lt)):
+            tb = F.body('<%s as std::hash::Hash>::hash' % lt) or (F.find(r"^<%s(<'\w+>)? as std::hash::Hash>::hash$" % re.escape(lt)) or [None])[0]
+            if tb is not None and tb.path != body.path:
+                out += hash_sequence(F, tb, depth + 1)
+                continue
+        out.append((src, lt))
     return out
 
 
-def eq_structure(F, body):
+def eq_structure(F, body, _depth=0):
     """Analyse a PartialEq::eq body: returns (fields, ok, why).
     fields = ordered list of (accessor, leaf type) compared; ok = the result
     is the conjunction of all of them (any false => false)."""
@@ -196,7 +206,18 @@ def eq_structure(F, body):
             names.append(nm)
         if names[0] is None or names[0] != names[1]:
             return fields, False, 'comparison at %s relates %s with %s' % (c.loc(), aps[0], aps[1])
-        fields.append((names[0], leaf_type_norm(c.callee.self_ty or '?')))
+        lt = leaf_type_norm(c.callee.self_ty or '?')
+        if names[0] == 'self' and _depth < 2 and (lt.startswith('dyn ') or re.match(r'^utils::private::\w*Key\b', lt)):
+            # `self as &dyn Key == other as &dyn Key`: the whole key is compared through another view of it -- what is
+            # compared is what that view compares
+            tb = F.body('<%s as std::cmp::PartialEq>::eq' % lt) or (F.find(r"^<%s(<'\w+>)? as std::cmp::PartialEq>::eq$" % re.escape(lt)) or [None])[0]
+            if tb is not None and tb.path != body.path:
+                f2, ok2, why2 = eq_structure(F, tb, _depth + 1)
+                if not ok2:
+                    return fields, False, 'through %s: %s' % (tb.path, why2)
+                fields += f2
+                continue
+        fields.append((names[0], lt))
     paths = enumerate_paths(body)
     if paths is None:
         return fields, False, 'too many paths'
